@@ -29,9 +29,14 @@
 EXTENDS Integers, Sequences, Json, IOUtils, TLC
 
 Insts == JsonDeserialize(IOEnv.QUANT_INSTS)
+\* Composite representations (quantised vectors, packed quaternions, vector lists ...): each
+\* is a sequence of scalar instances (indices into Insts) read/written as one field, found by
+\* reflection: [id, comps: <<instance index>>, extra: <<raw tuples sampled by the harness>>]
+Comps == JsonDeserialize(IOEnv.QUANT_COMPS)
 
-VARIABLES inst, raw
-vars == <<inst, raw>>
+VARIABLES inst, raw,      \* scalar machine: instance index, raw value
+          ci, tup         \* composite machine: composite index, tuple of raw values
+vars == <<inst, raw, ci, tup>>
 
 Abs(x) == IF x < 0 THEN -x ELSE x
 MinOf(a, b) == IF a < b THEN a ELSE b
@@ -68,8 +73,8 @@ NeedsZero(i) == Centred(i) /\ i.kind # "numpy"
 -----------------------------------------------------------------------------------------
 (* The machine: one state per (instance, raw) *)
 I == Insts[inst]
-Init == inst \in DOMAIN Insts /\ raw = Insts[inst].rawMin
-Step == raw < I.rawMax /\ raw' = raw + 1 /\ UNCHANGED inst
+Init == inst \in DOMAIN Insts /\ raw = Insts[inst].rawMin /\ ci = 0 /\ tup = <<>>
+Step == raw < I.rawMax /\ raw' = raw + 1 /\ UNCHANGED <<inst, ci, tup>>
 Next == Step
 Spec == Init /\ [][Next]_vars
 
@@ -104,4 +109,37 @@ RowOf(i, r) == [i |-> i.id, raw |-> r, val |-> Val(i, r), tag |-> Tag(i, r),
                 re |-> Enc(i, Val(i, r), Tag(i, r)), end |-> End(i, r),
                 ee |-> Enc(i, IF End(i, r) = "hi" THEN i.hi ELSE i.lo, "none"),
                 zero |-> (NeedsZero(i) /\ Val(i, r) = 0)]
+
+-----------------------------------------------------------------------------------------
+(* Composite representations.  The law: a composite of exact component inverses is an    *)
+(* exact inverse -- decoding a tuple of raws component-wise and re-encoding the decoded   *)
+(* composite value gives back the same tuple.  Nothing in the wire format couples the      *)
+(* components, so no composite is exempt: this includes the 3-component packed             *)
+(* quaternions, whose W is not sent and is reconstructed by the receiver (as 0 when the    *)
+(* decoded X/Y/Z is longer than 1); re-encoding must leave X/Y/Z alone.                    *)
+(* States: per composite, the lattice {ends, ends +-1, centre, centre +-1}^n of raw        *)
+(* tuples plus the tuples sampled by the harness.                                          *)
+ToSet(s) == {s[k] : k \in DOMAIN s}
+Mid(i)  == i.rawMin + (i.rawMax - i.rawMin) \div 2
+Edge(i) == {i.rawMin, i.rawMin + 1, Mid(i) - 1, Mid(i), Mid(i) + 1, i.rawMax - 1, i.rawMax}
+CI(c, k) == Insts[c.comps[k]]
+RECURSIVE Lattice(_, _)
+Lattice(c, k) == IF k = 0 THEN {<<>>}
+                 ELSE {Append(t, r) : t \in Lattice(c, k - 1), r \in Edge(CI(c, k))}
+C == Comps[ci]
+CInit == /\ ci \in DOMAIN Comps
+         /\ tup \in Lattice(Comps[ci], Len(Comps[ci].comps)) \cup ToSet(Comps[ci].extra)
+         /\ inst = 1 /\ raw = Insts[1].rawMin
+CNext == UNCHANGED vars
+CSpec == CInit /\ [][CNext]_vars
+
+CompTypeOK == /\ Len(tup) = Len(C.comps)
+              /\ \A k \in DOMAIN tup : CI(C, k).rawMin <= tup[k] /\ tup[k] <= CI(C, k).rawMax
+CompRoundTrip == \A k \in DOMAIN tup :
+                   LET i == CI(C, k) IN
+                   /\ OnGrid(i, Val(i, tup[k]), Tag(i, tup[k]))
+                   /\ Enc(i, Val(i, tup[k]), Tag(i, tup[k])) = tup[k]
+CRow == [c |-> C.id, raws |-> tup,
+         vals |-> [k \in DOMAIN tup |-> Val(CI(C, k), tup[k])],
+         re   |-> [k \in DOMAIN tup |-> Enc(CI(C, k), Val(CI(C, k), tup[k]), Tag(CI(C, k), tup[k]))]]
 ====
